@@ -515,6 +515,7 @@ impl GenChooser {
 struct Session {
     cfgs: Vec<RunCfg>,
     coop: bool,
+    auto: bool,
     script: Option<Vec<Vec<Act>>>, // None = generate
 }
 
@@ -569,13 +570,13 @@ fn run_case(
         match s.script {
             Some(script) => {
                 let mut it = script.into_iter();
-                session(&mut g, &s.cfgs, s.coop, out, &mut |_v, _step| it.next());
+                session(&mut g, &s.cfgs, s.coop, s.auto, out, &mut |_v, _step| it.next());
             }
             None => {
                 let burst = rng.chance(22);
                 let abort_at = if allow_abort && rng.chance(35) { Some(1 + rng.below(4) as usize) } else { None };
                 let mut ch = GenChooser { rng: Rng(rng.next() | 1), useless: 0, allow_abort, midpoll_intr: midpoll, steps: 0, burst, abort_at };
-                session(&mut g, &s.cfgs, s.coop, out, &mut |v, step| ch.choose(v, step));
+                session(&mut g, &s.cfgs, s.coop, s.auto, out, &mut |v, step| ch.choose(v, step));
             }
         }
     }
@@ -605,11 +606,11 @@ fn gen_main(seed: u64, count: usize, kinds: &str, maxn: usize) {
                 let sb = has("stream") && rng.chance(30);
                 let a = gen_runcfg(&mut rng, sa, true);
                 let b = gen_runcfg(&mut rng, sb, true);
-                sessions.push(Session { cfgs: vec![a, b], coop: rng.chance(50), script: None });
+                sessions.push(Session { cfgs: vec![a, b], coop: rng.chance(50), auto: false, script: None });
             } else if has("stream") && (!has("run") || pick < 35) {
-                { let c = gen_runcfg(&mut rng, true, false); sessions.push(Session { cfgs: vec![c], coop: rng.chance(50), script: None }); }
+                { let c = gen_runcfg(&mut rng, true, false); sessions.push(Session { cfgs: vec![c], coop: rng.chance(50), auto: false, script: None }); }
             } else if has("run") {
-                { let c = gen_runcfg(&mut rng, false, false); sessions.push(Session { cfgs: vec![c], coop: rng.chance(50), script: None }); }
+                { let c = gen_runcfg(&mut rng, false, false); sessions.push(Session { cfgs: vec![c], coop: rng.chance(50), auto: rng.chance(12), script: None }); }
             }
         }
         let midpoll = has("midpoll");
@@ -666,7 +667,7 @@ fn replay_main(path: &str) {
                     fails = parse_csv(f);
                 }
             } else if l.starts_with("session") {
-                sessions.push(Session { cfgs: vec![], coop: l.contains("coop=1"), script: Some(vec![]) });
+                sessions.push(Session { cfgs: vec![], coop: l.contains("coop=1"), auto: l.contains("auto=1"), script: Some(vec![]) });
             } else if l.starts_with("run ") {
                 if let (Some(s), Some((_, cfg))) = (sessions.last_mut(), RunCfg::parse(l)) {
                     s.cfgs.push(cfg);
@@ -978,7 +979,7 @@ fn enum_main(maxn: usize, part: usize, parts: usize, streams: bool) {
                 let (g, built) = build(b);
                 out.push(built);
                 if let Some(mut g) = g {
-                    session(&mut g, std::slice::from_ref(cfg), (gi + ci) % 2 == 1, &mut out, &mut |v, step| ch.choose(v, step));
+                    session(&mut g, std::slice::from_ref(cfg), (gi + ci) % 2 == 1, false, &mut out, &mut |v, step| ch.choose(v, step));
                 }
                 out.push("end".into());
                 for l in out {
@@ -1074,6 +1075,38 @@ fn enumb_main(maxn: usize, full_decls: bool, part: usize, parts: usize) {
     }
 }
 
+
+/// budget x interrupt sweep: a wide graph of independent functions that complete at their first
+/// poll (`auto`), polled under tokio's cooperative budget, signal pending at the start,
+/// `PollNextN(k)` for every k — every alignment of the interrupt with a budget-induced yield.
+fn sweep_main(sizes: &str, stride: usize) {
+    use std::io::Write;
+    let stdout = std::io::stdout();
+    let mut lock = stdout.lock();
+    for (i, s) in sizes.split(',').enumerate() {
+        let n: usize = s.parse().unwrap();
+        let mut ops = vec![];
+        for _ in 0..n {
+            ops.push(Op::Fn { tag: 0, r: vec![], w: vec![] });
+        }
+        let apis = ["for_each_concurrent_with", "try_for_each_concurrent_with", "for_each_concurrent_mut_with", "try_for_each_concurrent_control_mut_with"];
+        let mut sessions = vec![];
+        let mut k = 1;
+        while k <= n {
+            let api = apis[(k / stride.max(1)) % apis.len()].to_string();
+            let cfg = RunCfg { api, rev: k % 2 == 0, limit: None, strat: Strat::PollN(k as u64), incl: k % 3 != 0, ord: (k % 6) as u8 };
+            sessions.push(Session { cfgs: vec![cfg], coop: true, auto: true, script: Some(vec![vec![Act::Intr { run: 0 }], vec![Act::Poll { run: 0 }], vec![Act::Poll { run: 0 }], vec![Act::Abort { run: 0 }]]) });
+            k += stride.max(1);
+        }
+        let mut out = vec![];
+        let mut rng = Rng(1);
+        run_case(&mut out, &format!("w{}_{}", i, n), "sweep", &ops, None, &[], sessions, &mut rng, false, false);
+        for l in out {
+            let _ = writeln!(lock, "{}", l);
+        }
+    }
+}
+
 fn main() {
     std::panic::set_hook(Box::new(|_| {}));
     let args: Vec<String> = std::env::args().collect();
@@ -1089,6 +1122,7 @@ fn main() {
         ),
         Some("replay") => replay_main(&args[2]),
         Some("kpops") => kpops_main(&get("--sizes", "8,16,24,32")),
+        Some("sweep") => sweep_main(&get("--sizes", "130,160"), get("--stride", "1").parse().unwrap()),
         Some("enumb") => enumb_main(
             get("--maxn", "3").parse().unwrap(),
             get("--decls", "small") == "full",
